@@ -206,6 +206,34 @@ def run(ctx):
                          'entry point %d says %s, property requires %s' % (mode, got, want))
         ctx.sample({'layer': 'B', 'mode': bcases[1][0], 'actual': bcases[1][1], 'reference': bcases[1][2],
                     'opts': bcases[1][3]})
+        # ------------------------------------------------ files that differ only in bytes the encoding cannot decode
+        # (whatever else happens, two such files must not be reported as the same text)
+        for it in range(24 if ctx.quick else 300):
+            body = [rng.choice(T.WORDS).encode('utf-8') for _ in range(rng.randint(1, 4))]
+            k = rng.randrange(len(body))
+            x, y = rng.choice([(b'caf\xe9', b'caf\xe8'), (b'\xff', b'\xfe'), (b'a\xe9b', b'a\xfcb'), (b'\x80\x80', b'\x81\x80')])
+            ba = b'\n'.join(body[:k] + [x] + body[k:]) + b'\n'
+            be = b'\n'.join(body[:k] + [y] + body[k:]) + b'\n'
+            enc = rng.choice([None, 'utf-8', 'ascii'])
+            refp, actp = os.path.join(tmp, 'bref.txt'), os.path.join(tmp, 'bact.txt')
+            with open(refp, 'wb') as f:
+                f.write(be)
+            with open(actp, 'wb') as f:
+                f.write(ba)
+            case = {'layer': 'bytes', 'actual_bytes': repr(ba), 'reference_bytes': repr(be), 'encoding': enc}
+            ctx.count(repr(case), True)
+            ctx.bump('bytes.undecodable')
+            kw = {} if enc is None else {'encoding': enc}
+            try:
+                if rng.random() < 0.5:
+                    rt.assertTextFileCorrect(actp, refp, **kw)
+                else:
+                    rt.assertTextFilesCorrect([actp], [refp], **kw)
+                ctx.fail(case, 'two files that differ (in bytes the encoding cannot decode) are reported as the same text')
+            except Exception:
+                pass
+            for f in os.listdir(tmp):
+                os.remove(os.path.join(tmp, f))
         # ------------------------------------------------ splitlines / strip tables vs CPython
         strs = [''.join(rng.choice(['a', ' ', '\n', '\r', '\r\n', '\x0b', '\x0c', '\x1c', '\x1d', '\x1e',
                                     '\x85', ' ', ' ', '\xa0', '　', 'é', '\t', '\x1f'])
